@@ -156,8 +156,12 @@ EqualsT(a, b) == \A p \in DOMAIN a.data : Cmp("eq", a.data[p], b.data[p]) = One
 
 DimIn(d, lo, hi) == lo <= d /\ d <= hi
 
+ConstructorOps == {"full", "zeros", "ones", "eye"}
+
 Pre(op, par, ad) ==
-  CASE op = "slice" -> SliceIndexOK(par.index, ad[1])
+  CASE op \in {"full", "zeros", "ones"} -> ValidDims(par.shape)
+    [] op = "eye" -> par.dim > 0
+    [] op = "slice" -> SliceIndexOK(par.index, ad[1])
     [] op = "patch" -> PatchIndexOK(par.index, ad[2], ad[1])
     [] op = "transpose" -> Len(ad[1]) >= 2
     [] op = "reshape" -> ValidDims(par.shape) /\ Prod(par.shape) = Prod(ad[1])
@@ -182,7 +186,11 @@ Pre(op, par, ad) ==
 
 (* the result of an operation whose precondition holds *)
 Apply(op, par, args) ==
-  CASE op = "slice" -> Slice(args[1], par.index)
+  CASE op = "full" -> Full(par.shape, par.k)
+    [] op = "zeros" -> Full(par.shape, Zero)
+    [] op = "ones" -> Full(par.shape, One)
+    [] op = "eye" -> Eye(par.dim)
+    [] op = "slice" -> Slice(args[1], par.index)
     [] op = "patch" -> Patch(args[1], par.index, args[2])
     [] op = "transpose" -> Transpose(args[1])
     [] op = "reshape" -> Reshape(args[1], par.shape)
